@@ -21,4 +21,9 @@ theorem facts_close_decision_inputs :
     (["req.Close", "res.Close", "p.Closing()"].all fun i => Martian.Generated.ProxySem.closeDecisionInputs.contains i) = true := by
   decide
 
+/-- `handleLoop` sets the connection deadline on every iteration, unconditionally, before it calls
+`handle` - the discipline `Wire.serveTimed` transcribes (`deadline_is_per_request`). -/
+theorem facts_deadline_rearmed_before_every_handle :
+    Martian.Generated.ProxySem.deadlineRearmedBeforeEveryHandle = true := by decide
+
 end Martian.Props.C01
